@@ -25,14 +25,15 @@ func (o *fmtOut) str(s string) {
 }
 
 func (o *fmtOut) val() V {
-	if o.opaque {
-		b := make([]V, len(o.b))
-		for i := range b {
-			b[i] = V{K: KOpq}
-		}
-		return V{K: KSymStr, P: &SymStr{B: b}}
-	}
 	return mkStr(o.b)
+}
+
+// opq appends an opaque placeholder (content and length unknown).
+func (o *fmtOut) opq(n int) {
+	for i := 0; i < n; i++ {
+		o.b = append(o.b, V{K: KOpq})
+	}
+	o.opaque = true
 }
 
 // hostScalar converts a concrete scalar engine value (with its static/dynamic type) to a host value.
@@ -155,12 +156,10 @@ func (e *Engine) fmtArg(fr *frame, out *fmtOut, spec string, verb byte, arg V) {
 				return
 			}
 		}
-		out.str("<sym>")
-		out.opaque = true
+		out.opq(3)
 		return
 	case KSymFloat:
-		out.str("<sym>")
-		out.opaque = true
+		out.opq(3)
 		return
 	case KSlice:
 		// []byte with %s / %x; other slices with %v
@@ -203,8 +202,7 @@ func (e *Engine) fmtArg(fr *frame, out *fmtOut, spec string, verb byte, arg V) {
 				return
 			}
 		}
-		out.str("0xc000010000")
-		out.opaque = true
+		out.opq(12)
 		return
 	case KStruct:
 		if st, ok := it.T.Underlying().(*types.Struct); ok {
@@ -222,15 +220,13 @@ func (e *Engine) fmtArg(fr *frame, out *fmtOut, spec string, verb byte, arg V) {
 			return
 		}
 	case KMap:
-		out.str(fmt.Sprintf("map[%d entries]", v.mapv().Len()))
-		out.opaque = true
+		out.opq(8)
 		return
 	case KIface:
 		e.fmtArg(fr, out, spec, verb, v)
 		return
 	}
-	out.str("<" + types.TypeString(it.T, nil) + ">")
-	out.opaque = true
+	out.opq(6)
 }
 
 func (e *Engine) boxForFmt(t types.Type, v V) V {
@@ -259,8 +255,7 @@ func (e *Engine) fmtString(out *fmtOut, spec string, verb byte, plain bool, s V)
 		return
 	}
 	// e.g. %q of a symbolic string: placeholder
-	out.str("<symstr>")
-	out.opaque = true
+	out.opq(strLen(s) + 2)
 }
 
 // sprintf implements fmt.Sprintf over engine values; wrapped reports the %w operand.
